@@ -255,8 +255,13 @@ def make_body(batch, pose, yq, den):
     return O._with(**kw)
 
 
-def scenic_text(batch, case):
-    """A Scenic program that rebuilds the case (used for the `can see` operator and for replays)."""
+def scenic_text(batch, case, form="require"):
+    """A Scenic program that rebuilds the case (used for the `can see` operator and for replays).
+    form "require": `require viewer can see tgt`;
+    form "specifier" (Object targets): the target is declared `visible from viewer` / `not visible from viewer`
+    according to the spec's answer with all occluders present, AFTER a far-away dummy object that is itself
+    declared `not visible from viewer` -- the default visibility requirements of every such object must
+    see every occluding object of the scene, whatever the declaration order; the scene must be accepted."""
     vpar, rpar = batch["vps"][case["c"][3] - 1], batch["rs"][case["c"][2] - 1]
     den = case["den"]
 
@@ -272,6 +277,8 @@ def scenic_text(batch, case):
                 f"with width {w}, with length {l}, with height {h}, with allowCollisions True, with requireVisible False")
 
     lines = []
+    if form == "specifier":
+        lines.append("workspace = Workspace(BoxRegion(dimensions=(4000, 4000, 4000)))")
     va = f"({lat3.deg(vpar['h'])!r}, {lat3.deg(vpar['v'])!r})"
     common_v = f"with visibleDistance {vpar['d'] / lat3.SCALE}, with allowCollisions True, with requireVisible False"
     dens = batch["tpls"][case["c"][0] - 1]["dens"] or vpar["dens"]
@@ -289,13 +296,18 @@ def scenic_text(batch, case):
         else:
             lines.append(f"viewer = new Point at {vec(vpar['pos'], lat3.SCALE)}, with visibleDistance {vpar['d'] / lat3.SCALE}")
     tp = batch["tpls"][case["c"][0] - 1]
-    if tp["tk"] == "pt":
+    if form == "specifier":
+        lines.append("dummy = new Object at (1500, 1500, 1500), not visible from viewer, with occluding False, with allowCollisions True, with requireVisible False")
+        how = "visible from viewer" if case["ans"][-1] == "T" else "not visible from viewer"
+        lines.append(obj("tgt", case["tgt"]) + ", " + how)
+    elif tp["tk"] == "pt":
         lines.append(f"tgt = {vec(case['tgt']['p'], lat3.SCALE * den)}")
     else:
         lines.append(obj("tgt", case["tgt"]))
     for j, o in enumerate(case["occ"]):
         lines.append(obj(f"occ{j + 1}", o))
-    lines.append("require viewer can see tgt")
+    if form == "require":
+        lines.append("require viewer can see tgt")
     return "\n".join(lines) + "\n"
 
 
@@ -362,7 +374,7 @@ def operator_cases(item):
 
     out = []
     for case in cases:
-        text = scenic_text(batch, case)
+        text = scenic_text(batch, case, case.get("form", "require"))
         try:
             sc = scenic.scenarioFromString(text, mode2D=False)
             try:
@@ -572,6 +584,36 @@ def main(tier):
                          {"property": "C17", "what": "can see operator", "program": scenic_text(b, c), "expected": exp, "observed": r["obs"],
                           "as_implemented": c["impl"][kk], "deviation": c["dev"][kk]}, known_key=known)
     stats["operator_cases"] = nops
+
+    # ---- the visibility requirements built on it: `visible from` / `not visible from` specifiers of a target declared
+    # after another entity that also has a visibility specifier; the scene must be accepted (see scenic_text)
+    sp = [c for bi, c in chosen if batches[bi]["mode"] == "3D" and batches[bi]["tpls"][c["c"][0] - 1]["tk"] == "box"
+          and c["occ"] and c["ans"][-1] != "free" and not c["edge"]]
+    rng.shuffle(sp)
+    hidden = [c for c in sp if c["ans"][-1] == "F" and c["ans"][0] != "F"]  # hidden BY the occluders: these need them
+    others = [c for c in sp if not (c["ans"][-1] == "F" and c["ans"][0] != "F")]
+    nh, no = (40, 20) if tier == "quick" else (400, 200)
+    sp = [dict(c, form="specifier") for c in hidden[:nh] + others[:no]]
+    sp_chunks = [(batches[0], sp[i : i + 10]) for i in range(0, len(sp), 10)]
+    sp_res = pmap(operator_cases, sp_chunks, chunk=1)
+    nsp = 0
+    for (b, cs), rs in zip(sp_chunks, sp_res):
+        for c, r in zip(cs, rs):
+            nsp += 1
+            ck.case(("spec", tuple(c["c"])), nontrivial=True)
+            text = scenic_text(b, c, "specifier")
+            if r["err"]:
+                ck.violation(f"compiled visibility-specifier program failed: {r['err']}", {"property": "C17", "program": text, "error": r["err"]})
+            elif r["obs"]:
+                ck.validated()
+            else:
+                want = "visible" if c["ans"][-1] == "T" else "not visible"
+                ck.violation(f"a target that is {want} (spec, all occluders present) declared `{want} from viewer` after another entity with a visibility "
+                             f"specifier was rejected (case {c['c']}: {b['tpls'][c['c'][0]-1]['name']})",
+                             {"property": "C17", "what": "visibility requirement from specifier", "program": text, "expected": "T", "observed": False,
+                              "spec_answers_per_occluder_prefix": c["ans"]})
+    stats["specifier_requirement_cases"] = nsp
+    stats["specifier_requirement_cases_hidden_by_occluders"] = min(nh, len(hidden))
     ck.cov["answers"] = stats
     ck.cov["exhaustive"] = False
     ck.cov["explanation"] = ("TLC exhaustive over the generated cross product (templates x Q x R x viewers x occluder prefixes); "
